@@ -3,6 +3,7 @@
 # scripted one (ONE RandBurstGen object serves all requests) that hands out the draws of the request in call order: randint(a, b) pops a value (returned as it is),
 # choice(seq) pops an index k and returns seq[k % len(seq)].  A request whose draws run dry answers `dry`.
 #   rb.nb|rb.sb|rb.ab TSC DRAWS -> ok BITS REST     rb.fb | rb.db -> ok BITS 0
+from excname import exc_name
 import sys, types
 sys.dont_write_bytecode = True
 sys.path.insert(0, sys.argv[1])
@@ -71,5 +72,5 @@ for line in sys.stdin:
     try:
         print(handle(tok))
     except Exception as e:
-        print("EXC %s" % type(e).__name__)
+        print("EXC %s" % exc_name(e))
     sys.stdout.flush()
